@@ -187,10 +187,46 @@ def run_snapshot(ctx, snapshot, lines, impl_ans, rng):
                 return new, (";".join(obs) if obs else "none"), err
 
             # ---- on/off devices: blowers, lights, eco mode
+            async def panel(dev, on):
+                """the device is switched AT THE SPA (top-side panel, a timeout): the spa changes its block and reports it"""
+                acc = sim.structure.accessors[dev._state_sensor.accessor.tag]
+                if acc.type == "Bool":
+                    newv = bool(on)
+                else:
+                    newv = "OFF" if not on else [x for x in acc.items if x not in ("OFF", "")][0]
+                import builtins
+                real_print = builtins.print
+                builtins.print = lambda *a, **k: None          # the simulator chats on stdout
+                sim._send_structure_change = True
+                try:
+                    acc.value = newv
+                finally:
+                    sim._send_structure_change = False
+                    builtins.print = real_print
+                queued = list(sim._socket._send_handlers)
+                sim._socket._send_handlers.clear()
+                live = [t_ for t_ in net.transports if not t_.closed]
+                for hdl, _dest in queued:
+                    if live:
+                        net.push(live[-1], hdl.send_bytes)
+                await settle(1.0)
+
             switches = list(fac.blowers) + list(fac.lights) + ([fac.eco_mode] if fac.eco_mode is not None else [])
             for dev in switches:
                 tag = dev._accessor.tag
-                for want in (True, False, False, True, True):
+                # facade commands, then the same with the device switched at the spa in between (a history on ONE switch object)
+                for want in (True, False, False, True, True, ("panel", False), True, False, ("panel", True), False, ("panel", False), True):
+                    if isinstance(want, tuple):
+                        try:
+                            await panel(dev, want[1])
+                        except Exception as e:  # noqa
+                            ctx.violation(f"panel-raises:{dev.key}", {"snapshot": name, "device": dev.key}, "the spa's own change is mirrored", f"{type(e).__name__}: {e}")
+                            break
+                        if dev.is_on != want[1]:
+                            ctx.violation(f"panel-not-mirrored:{dev.key}", {"snapshot": name, "device": dev.key, "on": want[1]}, want[1], dev.is_on)
+                            break
+                        ctx.hist("commands", "switch:panel")
+                        continue
                     was = dev.is_on
                     new, obs, err = await issue(f"{dev.key}:{'on' if want else 'off'}",
                                                 dev.async_turn_on if want else dev.async_turn_off, None, None, acc=dev._accessor)
